@@ -131,13 +131,40 @@ func c18Profile(tier string) *eng.Profile {
 	return p
 }
 
+// c18ManyFilesProfile: Backup of directories with two-digit file ids (one record per segment).
+func c18ManyFilesProfile(tier string) *eng.Profile {
+	mf := c08ManyFilesProfile(tier)
+	p := c18Profile(tier)
+	p.Name = "backup-many-files"
+	p.Cfgs = mf.Cfgs
+	p.Ops = func(cfg core.Cfg) []core.Op {
+		var o []core.Op
+		for _, op := range mf.Ops(cfg) {
+			// no restarts here; no multi-pop transaction (pops inside one transaction do not see each
+			// other - the known finding of C13 - and would only make the set-up disagree with the model)
+			if op.Kind == "reopen" || (len(op.Calls) > 0 && op.Calls[0].F == "LPop") {
+				continue
+			}
+			o = append(o, op)
+		}
+		return append(o, core.Op{Kind: "backup"})
+	}
+	p.Obs = mf.Obs
+	p.Depth, p.DepthFor = 3, nil
+	if tier == "thorough" {
+		p.Depth = 4
+	}
+	return p
+}
+
 func init() {
-	profileBuilders = append(profileBuilders, func(tier string) { Register(c18Profile(tier)) })
+	profileBuilders = append(profileBuilders, func(tier string) { Register(c18Profile(tier)); Register(c18ManyFilesProfile(tier)) })
 	Registry["C18"] = func(r *Run) {
-		r.Rule = "E1: Backup(newdir) after every history of <=depth-1 ops of the mixed alphabet in every index mode x {FileIO,MMap}; the copy is opened with the same options and its full observation must equal the reference model at backup time; the source's observation must be unchanged; the same after every history of a value-shape grid (values of zero bytes / 0xff bytes / 'x' of 12 sizes around 512, 4096, 8192 and 16384 bytes x 4 layouts incl. a sealed segment, segment size 24576). E3: every schedule with <= bound preemptions of a backup thread against two writer threads whose records land in different segments (every file open/create/copy of CopyDir is a scheduling point); the copy's observation is judged as a read-only transaction: it must equal a state the database had during the backup's interval (strict serializability)"
+		r.Rule = "E1: Backup(newdir) after every history of <=depth-1 ops of the mixed alphabet in every index mode x {FileIO,MMap}; the copy is opened with the same options and its full observation must equal the reference model at backup time; the source's observation must be unchanged; the same after C08's many-files histories (one record per segment, up to 24 segment files); the same after every history of a value-shape grid (values of zero bytes / 0xff bytes / 'x' of 12 sizes around 512, 4096, 8192 and 16384 bytes x 4 layouts incl. a sealed segment, segment size 24576). E3: every schedule with <= bound preemptions of a backup thread against two writer threads whose records land in different segments (every file open/create/copy of CopyDir is a scheduling point); the copy's observation is judged as a read-only transaction: it must equal a state the database had during the backup's interval (strict serializability)"
 		r.Assume = []string{"queries whose answer on the source already disagrees with the model are excluded (other properties' defects)"}
 		r.Required = []string{"backup"}
 		r.Explore(c18Profile(r.Tier), "C18")
+		r.Explore(c18ManyFilesProfile(r.Tier), "C18")
 		runC18Values(r)
 		bound, max := 2, 25000
 		if r.Tier == "thorough" {
